@@ -34,6 +34,8 @@ every kind except custom types and nullable embedded messages, oneofs and nestin
     ('C03_conforms_partial', 'copy_to_conforms_partial', 'the result conforms to the schema type recursively and holds nothing unknown'),
     ('C03_schema_partial', 'copy_to_schema_partial', 'the same, stated against the attribute types of the generated schema'),
     ('C03_no_unknown', 'copy_to_clean', 'for EVERY message and value: if the target holds nothing unknown, neither does the result (any depth)'),
+    ('C03_total_embedded_partial', 'copy_to_total_embedded_partial', 'the same for messages with fields promoted from nullable (pointer) embedded messages (class emb_ok: one embedded pointer per promoted field, any of the six kinds below it), whether the embedded message is set or nil'),
+    ('C03_conforms_embedded_partial', 'copy_to_conforms_embedded_partial', 'and the result conforms to the schema type, without diagnostics'),
 ])
 
 T['C04'] = ("""C04 Object -> Terraform -> object round trip is lossless (proved for whole messages of the class rt_ok: every
@@ -45,6 +47,8 @@ kind except custom types and fields promoted from nullable embedded messages; th
     ('C04_payload_round_trip', 'payload_round_trip', 'conversely every in-range attribute payload decodes to a Go value that encodes to the same payload'),
     ('C04_message_round_trip_partial', 'copy_round_trip_partial', 'the whole message: CopyTo into the empty schema-typed object succeeds without diagnostics, CopyFrom of the result into a zero struct succeeds without diagnostics, and gives the original back up to the normal form (nil = empty, -0 = 0, zero-payload oneof = nil holder), at every depth, for every message of the class rt_ok (all kinds except custom types and nullable embedded messages; nested messages, lists and maps of them, oneofs) and every typed value'),
     ('C04_message_round_trip_nofloat32', 'copy_round_trip_nofloat32', 'the same without float32 fields, free of the classical axioms Flocq brings in'),
+    ('C04_promoted_scalar_round_trip_partial', 'promoted_scalar_round_trip_partial', 'round trip of a scalar promoted from a nullable embedded message: nil stays nil, a set message whose promoted field is zero comes back nil (normal form), any other value comes back exactly'),
+    ('C04_embedded_allocated', 'copy_from_allocates_parent', 'a known non-null promoted attribute allocates the embedded message'),
 ])
 
 T['C05'] = ("""C05 Null and unknown Terraform values reset the target to zero or nil.""", [
@@ -58,6 +62,8 @@ T['C05'] = ("""C05 Null and unknown Terraform values reset the target to zero or
     ('C05_prior_independent_rt_partial', 'copy_from_prior_independent_rt_partial', 'instance for the class of the round trip theorem'),
     ('C05_all_null_resets_partial', 'copy_from_all_null_resets_partial', 'an object all of whose attributes are null or unknown yields the zero message (scalars zero, pointers and oneofs nil, lists and maps empty, by-value messages zero recursively) without diagnostics, whatever the target held'),
     ('C05_missing_keeps_prior', 'from_field_unshaped_keeps_prior', "boundary: an attribute that is missing or of another constructor is reported and leaves the field as the target had it (that is C06's business)"),
+    ('C05_embedded_reset', 'copy_from_resets_parent', 'a nullable embedded message all of whose promoted attributes are null, unknown or missing is nil after CopyFrom, whatever the target held'),
+    ('C05_embedded_state', 'copy_from_parent_state', 'in general it is allocated exactly when some promoted attribute is known and non-null'),
 ])
 
 T['C06'] = ("""C06 Malformed input becomes diagnostics, never a panic.""", [
@@ -75,6 +81,7 @@ T['C06'] = ("""C06 Malformed input becomes diagnostics, never a panic.""", [
     ('C06_to_missing_reported', 'copy_to_missing_reported', 'for EVERY message, source and object target: a field whose attribute type is absent is reported with its path'),
     ('C06_to_repopulated_pruned_partial', 'copy_to_repopulated_pruned_partial', 'the same for a populated target: the object an earlier CopyTo produced, whose types (declared and carried by the held values) are then removed'),
     ('C06_to_diag_monotone', 'to_fields_diag_mono', 'diagnostics are never lost along the way'),
+    ('C06_from_total_embedded_partial', 'copy_from_total_embedded_partial', 'CopyFrom returns on every payload-typed object also for messages with fields promoted from nullable embedded messages (class emb_ok)'),
 ])
 
 T['C07'] = ("""C07 Oneof groups stay exclusive in both directions.""", [
@@ -239,4 +246,6 @@ T['C20'] = ("""C20 On an empty target, absence is rendered as null and presence 
     ('C20_object_present', 'to_field_obj_absent_some', 'a set message pointer as a non-null object'),
     ('C20_object_value', 'to_field_obj_absent_value', 'a message held by value is always a non-null object'),
     ('C20_oneof_inactive', 'to_field_oneof_inactive', 'an inactive oneof branch is null'),
+    ('C20_nil_embedded_renders_null', 'copy_to_nil_parent_renders_null', 'a nullable embedded message that is not set: every attribute of a field promoted from it is rendered null (scalars, lists, maps, nullable messages)'),
+    ('C20_promoted_scalar', 'copy_to_promoted_scalar', 'and when it is set, a promoted scalar is null exactly when it is zero'),
 ])
